@@ -65,13 +65,18 @@ Qed.
 
 (* ---------------- lengths, d-spacing ---------------- *)
 
-Lemma m_reciprocal_length (A : M3) (L : lattice R) (hkl g : V3) (Gs : M3) :
+(* |g|^2 = hkl G* hkl^T, where hkl G* is what the reciprocal -> direct conversion returns
+   (G* = recbase.T @ recbase, never raises); diffpy's own reciprocal().metrics, when it can
+   be built, is the same matrix *)
+Lemma m_reciprocal_length (A : M3) (L : lattice R) (hkl g : V3) :
   lattice_of_base ROps A = Ok L -> transform_space ROps L Sr Sc hkl = Ok g ->
-  l_rec_metrics L = Ok Gs ->
-  vnorm2 ROps g = vdot ROps (vmat ROps hkl Gs) hkl.
+  (exists u, transform_space ROps L Sr Sd hkl = Ok u /\ vnorm2 ROps g = vdot ROps u hkl) /\
+  (forall Gs, l_rec_metrics L = Ok Gs -> vnorm2 ROps g = vdot ROps (vmat ROps hkl Gs) hkl).
 Proof.
-  intros HL Hg HG. pose proof HL as HL'. apply metrics_are_gram in HL'. destruct HL' as [_ HG'].
-  rewrite (HG' Gs HG). use_lattice HL. rewrite ts_rc in Hg. apply Ok_inj in Hg. subst g. apply rlength_mat.
+  intros HL Hg. pose proof HL as HL'. apply metrics_are_gram in HL'. destruct HL' as [_ HG'].
+  use_lattice HL. rewrite ts_rc in Hg. apply Ok_inj in Hg. subst g. split.
+  - exists (vmat ROps hkl (rgram A)). split; [apply ts_rd | apply rlength_mat].
+  - intros Gs HG. rewrite (HG' Gs HG). apply rlength_mat.
 Qed.
 
 Lemma m_direct_length (A : M3) (L : lattice R) (uvw x : V3) :
